@@ -127,6 +127,7 @@ type Interp struct {
 
 	Effects []Effect
 	Und     string
+	UndCond string // key of the undetermined branch condition, if that is why the run is undecided
 	Used    map[string]bool
 	steps   int
 	allocN  int
@@ -197,6 +198,7 @@ type frame struct {
 	fn     *ssa.Function
 	vals   map[ssa.Value]AV
 	defers []*ssa.Defer
+	iters  map[*ssa.Next]int
 }
 
 // Run interprets fn with the given argument values (nil args default to
@@ -209,6 +211,7 @@ func (it *Interp) Run(fn *ssa.Function, args []AV) AOutcome {
 	it.mem = map[string]AV{}
 	it.Effects = nil
 	it.Und = ""
+	it.UndCond = ""
 	it.steps = 0
 	var ret []AV
 	var exit string
@@ -336,6 +339,17 @@ func (it *Interp) call(fn *ssa.Function, args []AV, bindings []AV) (ret []AV, ex
 				case c.IsFalse():
 					next = b.Succs[1]
 				default:
+					// a condition outside the rule's feature model: the caller may
+					// explore both outcomes as a free atom
+					if v, ok := it.Env["free:"+c.String()]; ok && (v.IsTrue() || v.IsFalse()) {
+						if v.IsTrue() {
+							next = b.Succs[0]
+						} else {
+							next = b.Succs[1]
+						}
+						break
+					}
+					it.UndCond = c.String()
 					it.und("branch at %s in %s on a condition the valuation does not determine: %s",
 						it.P.Pos(condPos(x)), FnKey(fn), c.String())
 					return nil, "undecided"
@@ -763,8 +777,16 @@ func (it *Interp) compute(fr *frame, v ssa.Value) AV {
 	case *ssa.Range:
 		return Sym("range(" + it.val(fr, x.X).String() + ")")
 	case *ssa.Next:
+		// one abstract element per iteration: the valuation decides through
+		// next(range(X))#i whether iteration i exists
 		r := it.val(fr, x.Iter)
-		return AV{Kind: KTuple, Tup: []AV{it.lookup("next(" + r.String() + ")"), Sym("key"), Sym("elem")}}
+		if fr.iters == nil {
+			fr.iters = map[*ssa.Next]int{}
+		}
+		i := fr.iters[x]
+		fr.iters[x] = i + 1
+		ok := it.lookup(fmt.Sprintf("next(%s)#%d", r.String(), i))
+		return AV{Kind: KTuple, Tup: []AV{ok, Sym(fmt.Sprintf("key#%d(%s)", i, r.String())), NonNil(fmt.Sprintf("elem#%d(%s)", i, r.String()))}}
 	case *ssa.Select:
 		return Sym("select")
 	case *ssa.SliceToArrayPointer, *ssa.MultiConvert:
@@ -1131,6 +1153,9 @@ type DecideCfg struct {
 	NonNil  map[string]bool
 	Args    func(it *Interp) []AV
 	MaxRuns int
+	// MaxFree bounds the number of branch conditions outside the feature model
+	// that are explored as free boolean atoms (0 = default 6, negative = none).
+	MaxFree int
 	// Expect returns "" if outcome o is right for the valuation, else a
 	// description of what was expected.
 	Expect func(f Features, o AOutcome) string
@@ -1143,6 +1168,7 @@ type DecideResult struct {
 	Mismatch string
 	Used     map[string]bool
 	Rows     []string
+	Free     []string // conditions explored as free atoms
 }
 
 // Decide explores the decision tree of fn lazily over the domain and compares
@@ -1197,6 +1223,31 @@ func (p *Prog) Decide(fn *ssa.Function, cfg DecideCfg) (res DecideResult) {
 		if o.Exit == "need" {
 			fork(o.Need)
 			continue
+		}
+		if o.Exit == "undecided" && it.UndCond != "" && cfg.MaxFree >= 0 {
+			// explore both outcomes of the unmodelled condition
+			nfree := 0
+			for k := range env {
+				if strings.HasPrefix(k, "free:") {
+					nfree++
+				}
+			}
+			limit := cfg.MaxFree
+			if limit == 0 {
+				limit = 6
+			}
+			if nfree < limit {
+				for _, v := range Bools {
+					e2 := Env{}
+					for kk, vv := range env {
+						e2[kk] = vv
+					}
+					e2["free:"+it.UndCond] = v
+					work = append(work, e2)
+				}
+				res.Free = append(res.Free, it.UndCond)
+				continue
+			}
 		}
 		if o.Exit == "undecided" {
 			if cfg.OnUnd != nil {
